@@ -412,12 +412,14 @@ class TableEngine:
                 spec["pre_children"] = True
             if self.prop in ("C01", "C02", "C07") and rng.chance(0.08, "nested") and rows and rows[0]["cells"] and rows[0]["cells"][0].get("r", 1) == 1 and not rows[0]["cells"][0].get("cs"):
                 rows[0]["cells"][0] = {"v": None, "nested": True}
-            if rng.chance(0.12, "initspan") and len(rows) >= 2:
+            if rng.chance(0.3 if self.prop == "C17" else 0.12, "initspan") and len(rows) >= 2:
                 r0, r1 = rows[0], rows[1]
                 if r0["cells"] and r1["cells"] and (r0.get("r", 1) == 1) and (r1.get("r", 1) == 1) and r0["cells"][0].get("r", 1) == 1 and r1["cells"][0].get("r", 1) == 1:
                     r0["cells"][0]["cs"] = 1
                     r0["cells"][0]["rs"] = 2
                     r1["cells"][0]["cov"] = True
+                    if rng.chance(0.4, "rowsonly"):
+                        del r0["cells"][0]["cs"]  # number-rows-spanned alone
             init["spec"] = spec
         elif fam == "sample":
             f, i = rng.choice(SMALL_SAMPLES, "sample")
